@@ -6,7 +6,9 @@
 //! case   : `eng=<file|rocks> ret=<retained_log_entries> pb=<n>|<term>/<cmd>;…;snap;…`
 //!          cmd: put,k,v,ttl|-  del,k  cas,k,exp|-,new  noop ; `snap` = leader creates the snapshot here;
 //!          pb = number of entries the follower had applied before the install.
-//! output : `label=<i>.<t> inst=<kv> ila=<i>.<t> b=<kv> bla=<i>.<t> a=<kv> ala=<i>.<t>` (or `nosnap a=… ala=…`)
+//!          optional `adv=<secs>`: after the replay the logical clock advances and both nodes run
+//!          `lease_background_cleanup` before their contents are compared (TTL state is part of the state).
+//! output : `label=<i>.<t> inst=<kv> ila=<i>.<t> il=<lease b after install> sl=<lease in snapshot> b=<kv> bla=<i>.<t> a=<kv> ala=<i>.<t>` (or `nosnap a=… ala=…`)
 use bytes::Bytes;
 use d_engine_core::{
     BufferedRaftLog, DefaultCommitHandler, DefaultStateMachineHandler, MockElectionCore, MockMembership,
@@ -15,7 +17,7 @@ use d_engine_core::{
 };
 use d_engine_proto::client::WriteCommand;
 use d_engine_proto::common::{Entry, EntryPayload};
-use d_engine_server::storage::TtlLease;
+use d_engine_server::storage::{verif_clock, TtlLease};
 use d_engine_server::{FileStateMachine, RocksDBStateMachine};
 use dv::{family_main, fields, rng::Rng};
 use futures::StreamExt;
@@ -26,6 +28,7 @@ use std::sync::atomic::AtomicUsize;
 use std::sync::Arc;
 
 const TMP: &str = "/verif/target/tmp";
+const T0: u64 = 1000;
 
 #[derive(Debug)]
 struct Tc<S>(PhantomData<S>);
@@ -132,13 +135,23 @@ fn show_kv(sm: &dyn StateMachine, keys: &[u64]) -> String {
         .collect();
     if v.is_empty() { "-".into() } else { v.join(",") }
 }
+fn show_lease(l: &TtlLease, keys: &[u64]) -> String {
+    let v: Vec<String> = keys
+        .iter()
+        .filter_map(|k| l.get_expiration(&key(*k)).map(|t| format!("{}@{}", k, t.duration_since(std::time::UNIX_EPOCH).unwrap().as_secs())))
+        .collect();
+    if v.is_empty() { "-".into() } else { v.join(",") }
+}
 fn show_id(sm: &dyn StateMachine) -> String { let l = sm.last_applied(); format!("{}.{}", l.index, l.term) }
 
-async fn run_case<S, F>(open: F, ret: u64, pb: usize, items: Vec<&str>, root: &Path) -> String
+async fn run_case<S, F>(open: F, ret: u64, pb: usize, adv: u64, items: Vec<&str>, root: &Path) -> String
 where
     S: StateMachine + std::fmt::Debug,
-    F: Fn(&Path) -> std::pin::Pin<Box<dyn std::future::Future<Output = S>>>,
+    F: Fn(&Path, Arc<TtlLease>) -> std::pin::Pin<Box<dyn std::future::Future<Output = S>>>,
 {
+    verif_clock::set_ms(T0 * 1000);
+    let a_lease = lease();
+    let b_lease = lease();
     let mut keys = vec![];
     let mut log: Vec<Entry> = vec![];
     let mut snap_at: Option<usize> = None;
@@ -153,14 +166,17 @@ where
     keys.sort();
     keys.dedup();
     // leader side
-    let a_sm = Arc::new(open(&root.join("a")).await);
+    let a_sm = Arc::new(open(&root.join("a"), a_lease.clone()).await);
     a_sm.start().await.expect("start a");
     let a_h = handler(a_sm.clone(), &root.join("a_snap"), ret);
     let n = snap_at.unwrap_or(log.len());
     for e in &log[..n] { a_h.apply_chunk(vec![e.clone()]).await.expect("apply a"); }
     let Some(n) = snap_at else {
+        verif_clock::set_ms((T0 + adv) * 1000);
+        a_sm.lease_background_cleanup().await.expect("cleanup a");
         let out = format!("nosnap a={} ala={}", show_kv(&*a_sm, &keys), show_id(&*a_sm));
         a_sm.close_storage();
+        verif_clock::clear();
         return out;
     };
     let (meta, _path) = {
@@ -168,8 +184,9 @@ where
         a_h.create_snapshot().await.expect("create_snapshot")
     };
     let label = meta.last_included.expect("label");
+    let sl = show_lease(&a_lease, &keys);
     // follower side: had applied pb entries, receives the snapshot through the real chunk stream
-    let b_sm = Arc::new(open(&root.join("b")).await);
+    let b_sm = Arc::new(open(&root.join("b"), b_lease.clone()).await);
     b_sm.start().await.expect("start b");
     let b_h = handler(b_sm.clone(), &root.join("b_snap"), ret);
     for e in &log[..pb.min(n)] { b_h.apply_chunk(vec![e.clone()]).await.expect("apply b pre"); }
@@ -183,6 +200,7 @@ where
     while ack_rx.try_recv().is_ok() {}
     let inst = show_kv(&*b_sm, &keys);
     let ila = show_id(&*b_sm);
+    let il = show_lease(&b_lease, &keys);
     // leader keeps applying; follower replays (label, end]
     for e in &log[n..] { a_h.apply_chunk(vec![e.clone()]).await.expect("apply a"); }
     // (the follower re-applies from its own last_applied + 1, which the install set to the label)
@@ -190,9 +208,14 @@ where
     for e in log.iter().filter(|e| e.index > start) {
         b_h.apply_chunk(vec![e.clone()]).await.expect("apply b");
     }
+    // later: the clock passes the TTLs and both nodes run their lease cleanup
+    verif_clock::set_ms((T0 + adv) * 1000);
+    a_sm.lease_background_cleanup().await.expect("cleanup a");
+    b_sm.lease_background_cleanup().await.expect("cleanup b");
+    verif_clock::clear();
     let out = format!(
-        "label={}.{} inst={} ila={} b={} bla={} a={} ala={}",
-        label.index, label.term, inst, ila, show_kv(&*b_sm, &keys), show_id(&*b_sm), show_kv(&*a_sm, &keys), show_id(&*a_sm)
+        "label={}.{} inst={} ila={} il={} sl={} b={} bla={} a={} ala={}",
+        label.index, label.term, inst, ila, il, sl, show_kv(&*b_sm, &keys), show_id(&*b_sm), show_kv(&*a_sm, &keys), show_id(&*a_sm)
     );
     a_sm.close_storage();
     b_sm.close_storage();
@@ -206,35 +229,36 @@ async fn exec_async(case: &str) -> String {
     let f = fields(hd);
     let ret: u64 = f.get("ret").expect("ret").parse().unwrap();
     let pb: usize = f.get("pb").expect("pb").parse().unwrap();
+    let adv: u64 = f.get("adv").map(|s| s.parse().unwrap()).unwrap_or(0);
     let items: Vec<&str> = if body.is_empty() { vec![] } else { body.split(';').collect() };
     std::fs::create_dir_all(TMP).unwrap();
     let root = tempfile::tempdir_in(TMP).unwrap();
     match f.get("eng").expect("eng").as_str() {
         "file" => {
             run_case(
-                |p: &Path| {
+                |p: &Path, l: Arc<TtlLease>| {
                     let p = p.to_path_buf();
                     Box::pin(async move {
                         let mut sm = FileStateMachine::new(p).await.expect("open");
-                        sm.set_lease(lease());
+                        sm.set_lease(l);
                         sm
                     })
                 },
-                ret, pb, items, root.path(),
+                ret, pb, adv, items, root.path(),
             )
             .await
         }
         _ => {
             run_case(
-                |p: &Path| {
+                |p: &Path, l: Arc<TtlLease>| {
                     let p = p.to_path_buf();
                     Box::pin(async move {
                         let mut sm = RocksDBStateMachine::new(p).expect("open");
-                        sm.set_lease(lease());
+                        sm.set_lease(l);
                         sm
                     })
                 },
-                ret, pb, items, root.path(),
+                ret, pb, adv, items, root.path(),
             )
             .await
         }
@@ -330,10 +354,34 @@ fn gen_stale_follower(r: &mut Rng, eng: &str) -> String {
     format!("eng={} ret={} pb={}|{}", eng, r.pick(&[0u64, 1, 2, 3, 8]), pb, items.join(";"))
 }
 
+/// TTL state across install: the follower holds live leases from the entries it applied before lagging; the
+/// leader cancels / replaces / adds TTLs afterwards (its table may be empty at snapshot time); install;
+/// the TTLs elapse; cleanup on both; compare.
+fn gen_ttl_install(r: &mut Rng, eng: &str) -> String {
+    let term = 1 + r.below(2);
+    let nk = 1 + r.below(2);
+    let mut items: Vec<String> = vec![];
+    for k in 1..=nk { items.push(format!("{}/put,{},1,{}", term, k, r.pick(&[2u64, 3, 5]))); }
+    let pb = items.len();
+    for k in 1..=nk {
+        items.push(match r.below(5) {
+            0 | 1 => format!("{}/put,{},2,-", term, k),            // overwrite without TTL: table may become empty
+            2 => format!("{}/cas,{},1,2", term, k),                // successful CAS cancels
+            3 => format!("{}/put,{},2,{}", term, k, 20 + r.below(5)), // longer TTL
+            _ => format!("{}/noop", term),
+        });
+    }
+    if r.chance(1, 3) { items.push(format!("{}/put,{},7,{}", term, nk + 1, r.pick(&[1u64, 4, 30]))); }
+    items.push("snap".into());
+    if r.chance(1, 2) { items.push(format!("{}/put,{},9,-", term + 1, nk + 2)); }
+    format!("eng={} ret={} pb={} adv={}|{}", eng, r.pick(&[0u64, 0, 1]), pb, r.pick(&[0u64, 6, 10, 40]), items.join(";"))
+}
+
 fn generate(r: &mut Rng, n: usize, tier: &str) -> Vec<String> {
     let mut out = vec![];
     for i in 0..n {
         let eng = if i % 6 == 5 { "rocks" } else { "file" };
+        if i % 5 == 2 { out.push(gen_ttl_install(r, if i % 10 == 2 { "rocks" } else { eng })); continue; }
         match i % 4 {
             1 => out.push(gen_reverse_chain(r, eng)),
             3 => out.push(gen_stale_follower(r, eng)),
